@@ -1,6 +1,7 @@
 import NutilsVerif.Core.Proto
 import NutilsVerif.Model.C19
 import NutilsVerif.Model.C19Src
+import NutilsVerif.Model.C19Sem
 open NutilsVerif NutilsVerif.Proto NutilsVerif.C19
 
 /-- fields separated by '|' WITHOUT trimming (marker / expression data may start with blanks) -/
@@ -69,12 +70,63 @@ partial def readSrc : List String → Option (Src × List String)
 
 def showCodes (l : List Char) : String := showNats (l.map Char.toNat)
 
+/-! evaluation of `evalOps` on integer data (the tie of the tensor semantics to the real `_FunctionArrayOps`) -/
+
+def intAlg : Alg Int :=
+  ⟨0, (· + ·), (- ·), (· * ·), (· / ·), fun a b => a ^ b.toNat, id, fun m e => (m : Int) * 10 ^ e.toNat⟩
+
+def flatIndex (shape idx : List Nat) : Nat := (List.zip shape idx).foldl (fun acc p => acc * p.1 + p.2) 0
+
+def mkTensor (shape : List Nat) (data : List Int) : Tensor Int := ⟨shape, fun idx => data.getD (flatIndex shape idx) 0⟩
+
+def fnTensor (gen : List Nat) (f : Int → List Nat → Int) (t : Tensor Int) : Tensor Int :=
+  ⟨t.shape ++ gen, fun idx => f (t.get (idx.take t.shape.length)) (idx.drop t.shape.length)⟩
+
+/-- the functions of the harness' namespaces -/
+def harnessFn (n : Name) (t : Tensor Int) : Tensor Int :=
+  match str n with
+  | "f" => fnTensor [] (fun u _ => 2 * u + 1) t
+  | "h" => fnTensor [] (fun u _ => u * u) t
+  | "g" => fnTensor [2] (fun u k => u * (if k.headD 0 == 0 then 1 else 10) + (k.headD 0 : Int)) t
+  | "w" => fnTensor [3] (fun u k => u * ((k.headD 0 : Int) + 2) - 1) t
+  | "G" => fnTensor [2, 3] (fun u k => u * ((k.headD 0 : Int) + 1) + (k.getD 1 0 : Int)) t
+  | "abs" => fnTensor [] (fun u _ => if u < 0 then -u else u) t
+  | "sign" => fnTensor [] (fun u _ => if u < 0 then -1 else if u == 0 then 0 else 1) t
+  | _ => ⟨t.shape, fun _ => 0⟩
+
+/-- all multi-indices of a shape in row-major order -/
+def allIdx : List Nat → List (List Nat)
+  | [] => [[]]
+  | n :: ns => (List.range n).flatMap fun i => (allIdx ns).map (i :: ·)
+
+/-- `name:2,3:1,2,3,4,5,6` -/
+def parseData (s : String) : Option (List (Name × List Nat × List Int)) :=
+  (words s).mapM fun w =>
+    match w.splitOn ":" with
+    | [n, sh, dat] =>
+      match ((sh.splitOn ",").filter (· ≠ "")).mapM (fun (x : String) => x.toNat?),
+            ((dat.splitOn ",").filter (· ≠ "")).mapM (fun (x : String) => x.toInt?) with
+      | some d, some v => some (n.toList, d, v)
+      | _, _ => none
+    | _ => none
+
 def handle (line : String) : String :=
   match rawFields line with
   | ["parse", entry, vars, fns, codes] =>
     match parseEntry entry, parseAssoc vars, parseAssoc fns, parseCodes codes with
     | some e, some vs, some fs, some l => showRes (parseAt ⟨vs, fs⟩ e l) l.length
     | _, _, _, _ => "bad-request"
+  | ["eval", vars, fns, codes] =>
+    match parseData vars, parseAssoc fns, parseCodes codes with
+    | some vs, some fs, some l =>
+      match parse ⟨vs.map fun v => (v.1, v.2.1), fs⟩ l with
+      | .error e => s!"err|{e.kind.message}"
+      | .ok r =>
+        let E : Env Int := ⟨intAlg, fun n => match vs.find? (·.1 == n) with | some v => mkTensor v.2.1 v.2.2 | none => ⟨[], fun _ => 0⟩,
+          harnessFn, id, fun t => ⟨t.shape, fun _ => 0⟩⟩
+        let t := evalOps E r.ops
+        s!"ok|{showNats t.shape}|{str r.indices}|{showInts ((allIdx t.shape).map t.get)}"
+    | _, _, _ => "bad-request"
   | ["src", vars, fns, toks] =>
     match parseAssoc vars, parseAssoc fns, readSrc (words toks) with
     | some vs, some fs, some (t, []) =>
